@@ -22,10 +22,6 @@ checks = {
  "C18": ("exploration", "I", "bounded-exhaustive byte-string enumeration against an independent BigSize reference codec", "Every byte string of length <= 3 (quick) / 4 (thorough), every string of length <= 6 / 8 over a 9-symbol alphabet, ~2600 structured truncations, tu64 on all strings of length 0-9 over 5 symbols.", "3.C18"),
 }
 na = {
- "C14": "engine (two-payment differential with freezing) not built yet in this commit",
- "C17": "engine F (framing over in-memory pipes) not built yet in this commit",
- "C19": "engine E (real binary configuration enumeration) not built yet in this commit",
- "C20": "watcher model not built yet in this commit",
 }
 import sys
 extra = json.load(open('/verif/manifest_extra.json')) if __import__('os').path.exists('/verif/manifest_extra.json') else {}
@@ -33,7 +29,7 @@ checks.update({k: tuple(v) for k, v in extra.get('checks', {}).items()})
 for k in extra.get('checks', {}): na.pop(k, None)
 m = {
  "version": 1,
- "setup_cmd": "cd /verif/mc && CARGO_NET_OFFLINE=true cargo build --offline --profile mc && CARGO_NET_OFFLINE=true cargo build --offline --profile mcw",
+ "setup_cmd": "cd /verif/mc && CARGO_NET_OFFLINE=true cargo build --offline --profile mc && CARGO_NET_OFFLINE=true cargo build --offline --profile mcw && CARGO_NET_OFFLINE=true CARGO_TARGET_DIR=/verif/.target/e2e cargo build --offline --manifest-path /repo/Cargo.toml",
  "hooks": {
   "guard": "cargo feature breez_trampoline_verif",
   "enable": "the harness crate /verif/mc compiles /repo/src/*.rs into itself by #[path] and declares a feature of the same name (default on); engine E builds /repo itself with the guard off",
